@@ -1204,6 +1204,47 @@ def _lookup_chain(node, what):
     return attr, target, order
 
 
+def _normaliser_part(tree, out, spans):
+    """_normalize_pixel_index_convention / _normalize_patient_orientation: required length, enum conversion, the pairs of letters of which
+    exactly one must occur"""
+    from py2lean import strip_doc
+    for fname, enum, lean in (('_normalize_pixel_index_convention', 'PixelIndexDirections', 'convention'),
+                              ('_normalize_patient_orientation', 'PatientOrientationValuesBiped', 'orientation')):
+        fn = find_func(tree, fname)
+        body = strip_doc(fn.body)
+        if len(body) != 6:
+            raise Unsupported(f'{fname} has {len(body)} statements, 6 expected')
+        t0 = body[0]
+        if not (isinstance(t0, ast.If) and isinstance(t0.test, ast.Compare) and _src(t0.test.left) == 'len(c)' and isinstance(t0.test.ops[0], ast.NotEq)
+                and isinstance(t0.body[0], ast.Raise) and ast.unparse(t0.body[0].exc.func) == 'ValueError'):
+            raise Unsupported(f'{fname}: length test')
+        n_ = _num(t0.test.comparators[0])
+        _expect(body[1], f'c = tuple(({enum}(d) for d in c))', fname)
+        _expect(body[2], 'c_set = {d.value for d in c}', fname)
+        cr = body[3]
+        if not (isinstance(cr, ast.Assign) and ast.unparse(cr.targets[0]) == 'criteria' and isinstance(cr.value, ast.List)):
+            raise Unsupported(f'{fname}: criteria')
+        pairs = []
+        for e in cr.value.elts:
+            if not (isinstance(e, ast.Compare) and len(e.ops) == 1 and isinstance(e.ops[0], ast.NotEq)):
+                raise Unsupported(f'{fname}: criterion {_src(e)}')
+            sides = []
+            for x in (e.left, e.comparators[0]):
+                if not (isinstance(x, ast.Compare) and isinstance(x.ops[0], ast.In) and _src(x.comparators[0]) == 'c_set' and isinstance(x.left, ast.Constant)
+                        and isinstance(x.left.value, str) and len(x.left.value) == 1):
+                    raise Unsupported(f'{fname}: criterion {_src(e)}')
+                sides.append(x.left.value)
+            pairs.append(tuple(sides))
+        if not (_src(body[4]).startswith('if not all(criteria):') and isinstance(body[4].body[-1], ast.Raise)
+                and ast.unparse(body[4].body[-1].exc.func) == 'ValueError'):
+            raise Unsupported(f'{fname}: criteria test')
+        _expect(body[5], 'return c', fname)
+        out.append(f'/-- `{fname}`: required number of letters -/\ndef {lean}Length : Nat := {n_}')
+        out.append(lean_table(f'{lean}ExclusivePairs', 'List (Char × Char)', [f'({_ch(a)}, {_ch(b)})' for a, b in pairs],
+                              f'{fname}: of each of these pairs exactly one letter must occur (else ValueError)'))
+        spans.append(fn)
+
+
 def _rotation_part(tree, out, spans):
     """create_rotation_matrix: which element of `pixel_spacing` is the spacing between rows / between columns, the scalar shorthand, the
     positivity test, the scaling of the columns"""
@@ -1654,6 +1695,7 @@ def _images_part(tree, out, spans):
         spans.append(t_)
     ortho_call('get_closest_patient_orientation', 'closestRequireUnit')
     ortho_call('create_affine_matrix_from_components', 'componentsRequireUnit')
+    _normaliser_part(tree, out, spans)
     _rotation_part(tree, out, spans)
     _convention_part(tree, out, spans)
     # ---- get_image_coordinate_system: the attributes that decide, in the order they are looked at
